@@ -173,3 +173,10 @@ class RefMPT:
             elif n.kind == "branch":
                 stack.extend(c for c in n.children if c is not None)
         return out
+
+
+def rlp_any(x):
+    """RLP of a decoded node structure (bytes / nested lists), own encoder."""
+    if isinstance(x, (list, tuple)):
+        return rlp_list([rlp_any(y) for y in x])
+    return rlp_bytes(bytes(x))
